@@ -44,6 +44,8 @@ pub const ORIG_METHODS: &[&str] = &[
     "foo", "bar", "<init>", "lambda$x$0", "baz", "foo2", "onClick", "x", "<clinit>", "méthode",
     // concatenation coincidences with ARGS ("" ++ "intfoo" = "int" ++ "foo", …)
     "intfoo", "int,longbar", "a.bx",
+    // … and in the other order ("fooint" ++ "" = "foo" ++ "int", …)
+    "fooint", "xint", "barint,long", "xa.b",
 ];
 pub const ARGS: &[&str] = &["", "int", "java.lang.String", "int,long", "a.b", "android.view.View", "int[]"];
 pub const TYPES: &[&str] = &["void", "int", "java.lang.String", "a.b[]", "o.A", "boolean", "é.T"];
@@ -282,6 +284,24 @@ pub fn gen_mapping(rng: &mut Rng, cfg: &Cfg) -> GenMapping {
     // repeat entries of the block they replace)
     let mut earlier: Vec<(String, Vec<String>)> = Vec::new();
     for _ in 0..nclasses {
+        if !cfg.many_similar && rng.pct(7) {
+            // a `-keep`'d class: class and methods map to themselves, ranges map to themselves, so a
+            // frame of it is remapped to an identical frame (which must still be re-printed)
+            let k = rng.pick(ORIG_CLASSES).to_string();
+            lines.push(format!("{} -> {}:", k, k));
+            for _ in 0..rng.range(1, 3) {
+                let m = rng.pick(ORIG_METHODS);
+                let a = small_line(rng, false);
+                let b = a.saturating_add(rng.below(6) as u64);
+                match rng.below(4) {
+                    0 => lines.push(format!("    void {}({}) -> {}", m, rng.pick(ARGS), m)),
+                    1 => lines.push(format!("    {}:{}:void {}({}) -> {}", a, b, m, rng.pick(ARGS), m)),
+                    _ => lines.push(format!("    {}:{}:void {}({}):{}:{} -> {}", a, b, m, rng.pick(ARGS), a, b, m)),
+                }
+            }
+            used.push(k);
+            continue;
+        }
         let mut replay: Vec<String> = Vec::new();
         let obf: String = if !used.is_empty() && rng.pct(12) {
             let name = rng.pick(&used).clone(); // duplicate class name
@@ -362,7 +382,12 @@ pub fn gen_mapping(rng: &mut Rng, cfg: &Cfg) -> GenMapping {
     let term = cfg.term.unwrap_or(rng.pick(&[Term::Lf, Term::Lf, Term::CrLf, Term::Cr, Term::Mixed]));
     let mut text = Vec::new();
     let n = lines.len();
+    // a UTF-8 byte-order mark at the start of the file or of a later line is part of that line
+    let bom_at = if rng.pct(4) { Some(0) } else if rng.pct(2) && n > 0 { Some(rng.below(n)) } else { None };
     for (i, l) in lines.iter().enumerate() {
+        if bom_at == Some(i) {
+            text.extend_from_slice(b"\xef\xbb\xbf");
+        }
         text.extend_from_slice(l.as_bytes());
         let last = i + 1 == n;
         if last && rng.pct(40) {
@@ -508,9 +533,14 @@ pub fn soup(rng: &mut Rng, max_len: usize) -> Vec<u8> {
         b"\\", b"\\\n", b"\\\r", b"\\\"", b"'", b"`", b"!", b"%", b"&", b"*", b"+", b",", b"-", b"/", b";", b"<", b"=", b">", b"?",
         b"@", b"[", b"]", b"^", b"_", b"{", b"|", b"~", b"000000000000000000001", b"18446744073709551617", b"18446744073709551619",
         b"\"}", b"\"}\n", b"x\"}",
+        // byte-order marks and other invisible prefixes
+        b"\xef\xbb\xbf", b"\xff\xfe", b"\xfe\xff", b"\xe2\x80\x8b", b"\xe2\x81\xa0", b"\xef\xbb\xbfa -> b:",
     ];
     let n = rng.below(max_len + 1);
     let mut t = Vec::new();
+    if rng.pct(8) {
+        t.extend_from_slice(b"\xef\xbb\xbf"); // a file that starts with a BOM
+    }
     while t.len() < n {
         if rng.pct(85) {
             t.extend_from_slice(rng.pick(TOKS));
